@@ -3,6 +3,7 @@ theorems: Props/C10.v (run = pipeline, exit 0 iff the single write happened, cou
 tie: model vs real command (stdout byte for byte, exit, wrote) under an enumeration of environment faults;
 oracle: the contract predicates evaluated on the real observations (stat + hash of the -o path before/after)."""
 import json
+import os
 import re
 from vlib import build, cfggen
 from . import common
@@ -103,7 +104,9 @@ def run(tier, seed, replay):
             complete = bool(content) and content.lstrip().startswith(("// Code generated", "//go:build gontainerstub")) and content.rstrip().endswith("}")
             if not after["exists"] or after["is_dir"] or not complete:
                 out.violation("exit0-no-output:" + cls, "exit 0 but the -o path does not hold a complete generated source", rep)
-            by_key.setdefault(json.dumps([sp["files"][0], sp["patterns"], bool(sp["flags"].get("stub"))], sort_keys=True), set()).add(after.get("hash"))
+            # same inputs (every file except what the -o path held before), patterns and mode
+            inputs = [f for f in sp["files"] if f["path"] not in (sp["output"], "out") and not f.get("dir")]
+            by_key.setdefault(json.dumps([inputs, sp["patterns"], bool(sp["flags"].get("stub")), sp.get("version")], sort_keys=True), set()).add(after.get("hash"))
         else:
             if (after["exists"], after["is_dir"], after.get("hash"), after["size"]) != (before["exists"], before["is_dir"], before.get("hash"), before["size"]):
                 out.violation("failure-touches-output:" + cls, "exit 1 but the -o path changed (%s -> %s)" % (before, after), rep)
@@ -131,6 +134,28 @@ def run(tier, seed, replay):
     for key, hs in by_key.items():
         if len(hs) > 1:
             out.violation("output-depends-on-old-file", "the same input produces different -o contents depending on what the path held before", {"input": json.loads(key), "hashes": sorted(h or "" for h in hs)})
+    # the PROCESS exit status (main.go), for failures with many errors: 0 iff the file was written
+    import subprocess as _sp, tempfile as _tf, shutil as _sh
+    tmpb = _tf.mkdtemp(prefix="gvc10_", dir="/dev/shm")
+    try:
+        dist["binary_runs"] = 0
+        for nerr in ([0, 1, 2, 256, 257] if tier == "quick" else [0, 1, 2, 3, 255, 256, 257, 511, 512, 513, 1024]):
+            cfgp = os.path.join(tmpb, "c.yaml")
+            open(cfgp, "w").write("parameters: {ok: 1}\nservices:\n" + "".join("  s%d: {constructor: NewS, arguments: [\"%%nope%d%%\"]}\n" % (i, i) for i in range(nerr)) + ("  fine: {value: V}\n" if nerr == 0 else ""))
+            for quiet in (False, True):
+                o = os.path.join(tmpb, "o.go")
+                open(o, "w").write("OLD\n")
+                p = _sp.run([os.path.join(tooldir, "gontainer"), "build", "-i", cfgp, "-o", o] + (["--quiet"] if quiet else []), stdout=_sp.PIPE, stderr=_sp.PIPE, text=True, timeout=120)
+                dist["binary_runs"] += 1
+                wrote = open(o).read() != "OLD\n"
+                rep = {"files": [{"path": "c.yaml", "content": open(cfgp).read()[:2000]}], "patterns": ["c.yaml"], "output": "o.go", "flags": {"quiet": quiet}, "version": "", "errors_expected": nerr,
+                       "process_exit": p.returncode, "wrote": wrote}
+                if (p.returncode == 0) != wrote or (nerr > 0 and p.returncode == 0) or (nerr == 0 and p.returncode != 0):
+                    out.violation("process-exit-status", "a build with %d errors exits %d and %s the output file" % (nerr, p.returncode, "rewrites" if wrote else "leaves"), rep)
+                elif p.returncode not in (0, 1):
+                    out.broke("correspondence:C10 process exit status", dict(rep, note="the model (main.go: os.Exit(1)) says exit 1"))
+    finally:
+        _sh.rmtree(tmpb, ignore_errors=True)
     # quiet / non-quiet pairs of the fault matrix must agree on exit and file effect
     idx = {}
     for k, sp in enumerate(specs):
